@@ -1164,7 +1164,8 @@ def multi_corpus(k0):
                         urace=urace))
     # a DEEP tree from every host: the receivers are threads on small stacks (dsh.c: 128 KiB per target thread) and
     # _sink() recurses once per directory level (seeded change C11-9: an 8 KiB buffer in every frame)
-    for depth in (24, 60):
+    # (not much deeper: the sanitizer build needs more stack per frame than the shipped one)
+    for depth in (24, 32):
         conns = [dict(host=h, files=[(b"f1", 5, 0o644, 1234567890, 3)], blocked=[], dir=False, dirblocked=False,
                       senddata=False, overwrite=False, deep=depth) for h in (b"h1", b"n2.dom.ain")]
         out.append(dict(k=k0 + len(out), multi=True, p=0, um=0o22, conns=conns, cut="records", race=None, urace=None))
